@@ -419,7 +419,9 @@ def gen_e2e_case(r, n):
 
 
 def imdl_env():
-    return {"PATH": os.environ.get("PATH", ""), "HOME": os.environ.get("HOME", "/root"), "RUST_BACKTRACE": "0"}
+    e = {"PATH": os.environ.get("PATH", ""), "RUST_BACKTRACE": "0"}
+    e.update(lib.noise_env())
+    return e
 
 
 def create_args(case, inp, name=None):
